@@ -38,10 +38,13 @@ Init == /\ files \in InitFiles /\ truth \in Kinds /\ IsPresent(files[truth])
         /\ (\E k \in 1..3 : KindSeq[k] = truth /\ k % NShards = Shard)
         /\ runs = 0 /\ init = files /\ failed = FALSE
 
-\* as built: a class target that has to be created is named after the truth's own name, not after --class-name; the named
-\* target is therefore never found and every further run appends another copy
-Misnamed(k, f) == on("sync_created_class_named_after_truth") /\ k = "cls" /\ (~IsPresent(f) \/ f.iface = "misnamed")
+\* as built: a class target whose FILE does not exist is created under the truth's own name, not under --class-name: the named target is
+\* not found after the first run; the second run appends a correctly named class next to the misnamed one, the third re-renders the file,
+\* and only then is a fixpoint reached (every step observed by trace validation; an existing empty file is handled correctly)
+Misnamed(k, f) == on("sync_created_class_named_after_truth") /\ k = "cls" /\ f.around = "missing"
 NewFile(k, t) == IF Misnamed(k, files[k]) THEN [iface |-> "misnamed", around |-> "none", rev |-> files[k].rev + 1]
+                 ELSE IF files[k].iface = "misnamed" THEN [iface |-> t.iface, around |-> "settling", rev |-> files[k].rev + 1]
+                 ELSE IF files[k].around = "settling" THEN [iface |-> t.iface, around |-> "none", rev |-> files[k].rev + 1]
                  ELSE IF NotReplaced(k, files[k]) THEN files[k]
                  ELSE IF IsPresent(files[k])
                  THEN [files[k] EXCEPT !.iface = t.iface, !.rev = IF files[k].iface = t.iface THEN @ ELSE @ + 1]
@@ -62,7 +65,7 @@ SecondRunNoop == [][runs >= 1 => files' = files]_vars
 SecondRunNoopOrDeviation == [][(runs >= 1 /\ "sync_created_class_named_after_truth" \notin Enabled) => files' = files]_vars
 Fired == {d \in Enabled : \/ (d = "sync_functiondef_not_replaced" /\ \E k \in {"fn", "ap"} : k # truth /\ IsPresent(init[k]))
                           \/ (d = "sync_missing_function_target_raises" /\ truth # "fn" /\ init["fn"].around = "missing")
-                          \/ (d = "sync_created_class_named_after_truth" /\ truth # "cls" /\ ~IsPresent(init["cls"]))}
+                          \/ (d = "sync_created_class_named_after_truth" /\ truth # "cls" /\ init["cls"].around = "missing")}
 AllEquivalentOrDeviation == (runs >= 1) => ((~failed /\ \A k \in Kinds : IsPresent(files[k]) /\ files[k].iface = init[truth].iface) \/ Fired # {})
 RECURSIVE SetToSeq(_)
 SetToSeq(S) == IF S = {} THEN <<>> ELSE LET x == CHOOSE x \in S : TRUE IN <<x>> \o SetToSeq(S \ {x})
